@@ -297,7 +297,20 @@ func init() {
 	register(&Prop{
 		ID: "C07", Engine: "stream",
 		Generate: genStreamSc, Decode: decodeStreamSc, Execute: execStream,
-		Config: func(any) simrt.Config { return simrt.Config{MaxSteps: 400000} },
+		Config: func(sc any) simrt.Config {
+			// the work of a run is proportional to the bytes on the wire (down to one Read per byte, on both sides):
+			// the statement budget of the bounded-liveness oracle scales with it
+			total := 0
+			if st, ok := sc.(*StreamSc); ok {
+				for _, f := range st.Frames {
+					total += len(f) / 2
+				}
+				if st.Oversize != nil {
+					total += st.Oversize.Tail + 8
+				}
+			}
+			return simrt.Config{MaxSteps: 400000 + 4*total, MaxYields: 1000000 + 100*int64(total)}
+		},
 		Runs: func(tier string) int {
 			if tier == "thorough" {
 				return 12000000
